@@ -64,12 +64,27 @@ def generate(o):
 
         return g
 
+    # the locals of `from_bytes_cython` by role (what is assigned to them), so that renaming them changes nothing:
+    # the char pointer, the buffer length, the declared payload length, the loop variable
+    def fn_text0():
+        m = re.search(r"(?ms)^cpdef from_bytes_cython\(.*?(?=^\S)", pyx.text + "\nX")
+        return m.group(0) if m else pyx.text
+
+    def local(pattern, default):
+        m = re.search(pattern, fn_text0())
+        return re.escape(m.group(1)) if m else default
+
+    PTR = local(r"cdef\s+const\s+char\s*\*\s*(\w+)\s*=\s*PyBytes_AsString\(\s*data\s*\)", "data_ptr")
+    LEN = local(r"cdef\s+Py_ssize_t\s+(\w+)\s*=\s*PyBytes_GET_SIZE\(\s*data\s*\)", "length")
+    SIZE = local(r"cdef\s+(?:Py_ssize_t|int|long)\s+(\w+)\s*=\s*\(?\s*\(\s*<unsigned char>", "record_size")
+    ITEM = local(r"(?m)^\s*for\s+(\w+)\s+in\s+\w+\s*:", "item")
+
     dhs = o.item("pyx.HEADER_SIZE", pyx_int(r"^\s*HEADER_SIZE\s*=\s*(\d+)\s*$".replace("^", "(?m)^")), 14)
-    mask = o.item("pyx.nibble_mask", pyx_int(r"data_ptr\[0\]\s*&\s*(0x[0-9A-Fa-f]+)"), 0xF0)
-    nib = o.item("pyx.nibble_value", pyx_int(r"data_ptr\[0\]\s*&\s*0x[0-9A-Fa-f]+\s*!=\s*(0x[0-9A-Fa-f]+)"), 0x10)
+    mask = o.item("pyx.nibble_mask", pyx_int(PTR + r"\[0\]\s*&\s*(0x[0-9A-Fa-f]+)"), 0xF0)
+    nib = o.item("pyx.nibble_value", pyx_int(PTR + r"\[0\]\s*&\s*0x[0-9A-Fa-f]+\s*!=\s*(0x[0-9A-Fa-f]+)"), 0x10)
 
     def shifts():
-        ms = re.findall(r"<unsigned char>data_ptr\[(\d+)\]\)(?:\s*<<\s*(\d+))?", pyx.text)
+        ms = re.findall(r"<unsigned char>" + PTR + r"\[(\d+)\]\)(?:\s*<<\s*(\d+))?", pyx.text)
         if len(ms) != 4:
             raise KeyError("length-field shifts")
         return [[int(a), int(b or 0)] for a, b in ms]
@@ -77,8 +92,8 @@ def generate(o):
     sh = o.item("pyx.length_field", shifts, [[2, 24], [3, 16], [4, 8], [5, 0]])
 
     def guards():
-        g1 = re.search(r"if\s+length\s*(<|<=|>|>=)\s*HEADER_SIZE\s+or", pyx.text)
-        g2 = re.search(r"if\s+record_size\s*(!=|==|<|>|<=|>=)\s*length\s*-\s*HEADER_SIZE", pyx.text)
+        g1 = re.search(r"if\s+" + LEN + r"\s*(<|<=|>|>=)\s*HEADER_SIZE\s+or", pyx.text)
+        g2 = re.search(r"if\s+" + SIZE + r"\s*(!=|==|<|>|<=|>=)\s*" + LEN + r"\s*-\s*HEADER_SIZE", pyx.text)
         if not g1 or not g2:
             raise KeyError("guards")
         return [g1.group(1), g2.group(1)]
@@ -95,9 +110,9 @@ def generate(o):
     def guard_order():
         t = fn_text()
         pos = {
-            "size": re.search(r"length\s*(?:<|<=|>|>=)\s*HEADER_SIZE", t),
-            "version": re.search(r"data_ptr\[0\]\s*&", t),
-            "length": re.search(r"record_size\s*(?:!=|==|<|>|<=|>=)\s*length\s*-\s*HEADER_SIZE", t),
+            "size": re.search(LEN + r"\s*(?:<|<=|>|>=)\s*HEADER_SIZE", t),
+            "version": re.search(PTR + r"\[0\]\s*&", t),
+            "length": re.search(SIZE + r"\s*(?:!=|==|<|>|<=|>=)\s*" + LEN + r"\s*-\s*HEADER_SIZE", t),
         }
         if not all(pos.values()):
             raise KeyError("guard positions")
@@ -118,8 +133,9 @@ def generate(o):
 
     def reserved_dec():
         t = fn_text()
-        m = re.search(r"isinstance\(item,\s*list\)\s+and\s+len\(item\)\s*==\s*(\d+)\s+and\s+item\[(\d+)\]\s*==\s*\"([^\"]*)\"", t)
-        a = re.search(r"datetime\.fromtimestamp\(\s*item\[(\d+)\]\s*\)", t)
+        m = re.search(r"isinstance\(" + ITEM + r",\s*list\)\s+and\s+len\(" + ITEM + r"\)\s*==\s*(\d+)\s+and\s+" + ITEM
+                      + r"\[(\d+)\]\s*==\s*\"([^\"]*)\"", t)
+        a = re.search(r"datetime\.fromtimestamp\(\s*" + ITEM + r"\[(\d+)\]\s*\)", t)
         if not m or not a:
             raise KeyError("reserved form test")
         return [int(m.group(1)), int(m.group(2)), m.group(3), int(a.group(1))]
